@@ -17,12 +17,15 @@ from checks import c01
 
 KIND = {0: None, 1: "VUnbound", 2: "VLiteralRange", 3: "VNegOperand", 4: "VNotOperand", 5: "VArithOperand", 6: "VCompareTypes",
         7: "VAndOrOperand", 8: "VReassignImmutable", 9: "VReassignType", 10: "VAnnotation", 11: "VRebindSameScope",
-        12: "VCompoundTarget", 13: "VCompoundOperand", 14: "VCondition", 15: "VRangeArg", 16: "VBreakOutsideLoop"}
+        12: "VCompoundTarget", 13: "VCompoundOperand", 14: "VCondition", 15: "VRangeArg", 16: "VBreakOutsideLoop",
+        17: "VUnknownFn", 18: "VCallArity", 19: "VCallArgType", 20: "VUnitValue", 21: "VReturnType", 22: "VMissingReturn"}
 # documented rule broken -> id of the known finding whose class it is (rules not listed here must be caught by the checker)
 KIND_FINDING = {"VAndOrOperand": "andor-unchecked", "VArithOperand": "arith-partner-unchecked",
                 "VReassignImmutable": "nested-reassign", "VReassignType": "nested-reassign",
                 "VRebindSameScope": "rebind-same-scope", "VBreakOutsideLoop": "break-outside-loop",
-                "VRangeArg": "range-arg-unchecked", "VCompoundTarget": "compound-bool", "VCompoundOperand": "compound-bool"}
+                "VRangeArg": "range-arg-unchecked", "VCompoundTarget": "compound-bool", "VCompoundOperand": "compound-bool",
+                "VCallArity": "call-args-unchecked", "VCallArgType": "call-args-unchecked", "VUnitValue": "unit-value",
+                "VMissingReturn": "missing-return"}
 
 REQ = ("From Verif Require Import Base.I64 C04.Model Core.Syntax Core.Dynamic Core.Rust Core.Lower Core.Static Core.Checker C01.Model C02.Model.\n"
        "From Coq Require Import ZArith List. Import ListNotations. Open Scope Z_scope.")
@@ -73,6 +76,12 @@ B = lambda o, l, r: ("bin", o, l, r)
 T, F = ("bool", True), ("bool", False)
 
 
+# helper functions available to the snippets (local ids 7, 8, 9)
+SNIP_HELPERS = [(7, [0, 1], True, [("ret", ("bin", "-", ("var", 0), ("var", 1)))]),
+                (8, [0], False, [("print", ("var", 0))]),
+                (9, [0], True, [("if", ("bin", ">", ("var", 0), ("int", 0)), [("ret", ("int", 1))], [], None)])]
+
+
 def snippets(rng):
     """statement lists that break ONE documented rule each (some the checker enforces, some it does not), using the
     reserved names v12/v13; inserted at the top level of an otherwise valid generated function"""
@@ -96,7 +105,17 @@ def snippets(rng):
         ("compound-bool", [("assign", "mut", 12, None, T), ("compound", rng.choice(["+", "*"]), 12, F)]),
         ("chain", [("print", B("==", B(rng.choice(["<", "=="]), I(n), I(2)), T))]),
         ("const-overflow", [("assign", "let", 12, None, B("+", I(n), I(1))), ("print", B("+", B("+", I(2**63 - 1), I(n + 1)), V(12)))]),
+        ("call-ok", [("cprint", ("call", 7, [I(n)], [(1, I(2))])), ("cexpr", ("call", 8, [I(n)], []))]),
+        ("call-arity", [("cprint", ("call", 7, [I(n)], []))]),
+        ("call-arity2", [("cexpr", ("call", 8, [I(n), I(1)], []))]),
+        ("call-argtype", [("cprint", ("call", 7, [T, I(n)], []))]),
+        ("call-kwname", [("cprint", ("call", 7, [I(n)], [(5, I(2))]))]),
+        ("unit-value", [("cprint", ("call", 8, [I(n)], []))]),
+        ("unit-value2", [("cassign", "let", 12, None, ("call", 8, [I(n)], []))]),
+        ("missing-return", [("cprint", ("call", 9, [I(n)], []))]),
         # rules the checker DOES enforce (must be rejected)
+        ("unknown-fn", [("cexpr", ("call", 6, [I(n)], []))]),
+        ("return-value-in-none-fn", [("ret", I(n))]),
         ("unbound", [("print", V(13))]),
         ("neg-bool", [("print", ("un", "neg", T))]),
         ("not-int", [("print", ("un", "not", I(n)))]),
@@ -114,14 +133,14 @@ def gen_cases(chk, n):
     while len(cases) < n:
         c = g.case()
         # keep the reserved names free
-        if "v12" in c.source("t") or "v13" in c.source("t"):
+        if "v12" in c.source("t0") or "v13" in c.source("t0"):
             continue
         tag = "valid"
         if chk.rng.random() < 0.55:
             tag, sn = chk.rng.choice(snippets(chk.rng))
             pos = chk.rng.randint(0, len(c.body))
             body = c.body[:pos] + [fin_stmt(x, chk.rng) for x in sn] + c.body[pos:]
-            c = c01.Case(c.params, c.args, body, origin="gen+" + tag)
+            c = c01.Case(c.params, c.args, body, origin="gen+" + tag, helpers=c.helpers + SNIP_HELPERS)
         if c.key() in seen:
             continue
         seen.add(c.key())
@@ -167,10 +186,18 @@ def witness_cases():
         "grouping": W([], [], [("print", B("==", B("<", I(1), I(2)), T))]),
         "const-overflow": W([0], [1], [("print", B("+", B("+", I(2**63 - 1), I(2)), V(0)))]),
         "int-fallback": W([], [], [("print", I(3000000000))]),
+        "call-args-unchecked": W([], [], [("cprint", ("call", 7, [I(1)], []))], helpers=SNIP_HELPERS),
+        "unit-value": W([], [], [("cprint", ("call", 8, [I(1)], []))], helpers=SNIP_HELPERS),
+        "missing-return": W([], [], [("cprint", ("call", 9, [I(1)], []))], helpers=SNIP_HELPERS),
     }
 
 
 LEN_LT_WITNESS = "def t0() -> None:\n    xs = [1, 2]\n    if len(xs) < 3:\n        println(1)\ndef main() -> None:\n    t0()\n"
+
+
+def owners(fnames):
+    """case indices (function f<10*i+k> belongs to the case placed at index i)"""
+    return {int(n[1:]) // 10 for n in fnames if re.fullmatch(r"f\d+", n)}
 
 
 def fn_of_error_lines(msg, main_rs):
@@ -220,7 +247,7 @@ def run(chk):
     wnames = sorted(wit)
     cases = [wit[k] for k in wnames] + cases
     tags = ["witness:" + k for k in wnames] + tags
-    chk.coverage["constructs"] = c01.CONSTRUCTS + ["(C02) one injected rule violation per function, 22 kinds"]
+    chk.coverage["constructs"] = c01.CONSTRUCTS + ["(C02) one injected rule violation per program, 32 kinds"]
 
     # which variant of check_if_stmt does the tree have?  (Core/Checker.v models both; see `ev` there)
     global ELIF_VISITED
@@ -241,8 +268,9 @@ def run(chk):
         if "panic" in r:
             fails.append({"case": c01.describe(c), "why": "the compiler panicked: " + r["panic"]})
             continue
-        if r.get("parse") != "ok" or r["ast"].get("t0") != c.sexp():
-            corr_bad.append({"case": c01.describe(c), "tie": "generator/parser", "real": r.get("parse"), "ast": r.get("ast", {}).get("t0"), "generator": c.sexp()})
+        want = c.sexps()
+        if r.get("parse") != "ok" or {k: r["ast"].get(k) for k in want} != want:
+            corr_bad.append({"case": c01.describe(c), "tie": "generator/parser", "real": r.get("parse"), "ast": r.get("ast"), "generator": want})
             continue
         accepted = not r["check"]
         cls = classes_of(m) if m else []
@@ -289,7 +317,8 @@ def run(chk):
             layout["%sb%d" % (tagp, b)] = [("t%d" % i, i) for i in chunk]
     widx = {k: wnames.index(k) for k in wnames}
     type_w = [k for k in ("andor-unchecked", "arith-partner-unchecked", "rebind-same-scope", "break-outside-loop", "elif-unchecked",
-                          "range-arg-unchecked", "compound-bool") if k in known and not real[widx[k]].get("check", ["x"])]
+                          "range-arg-unchecked", "compound-bool", "call-args-unchecked", "unit-value", "missing-return")
+              if k in known and not real[widx[k]].get("check", ["x"])]
     lint_w = [k for k in ("const-overflow", "int-fallback") if k in known and not real[widx[k]].get("check", ["x"])]
     if type_w:
         layout[tagp + "w0"] = [("w%d" % widx[k], widx[k]) for k in type_w]
@@ -308,8 +337,8 @@ def run(chk):
             members = layout[stem]
             if stem[len(tagp)] == "b":
                 if not ok:
-                    bad = fn_of_error_lines(msg, os.path.join(d, "out_" + stem, "src", "main.rs"))
-                    culprits = [(n, i) for n, i in members if n in bad] or members[:3]
+                    bad = owners(fn_of_error_lines(msg, os.path.join(d, "out_" + stem, "src", "main.rs")))
+                    culprits = [(n, i) for n, i in members if int(n[1:]) in bad] or members[:3]
                     for n, i in culprits[:10]:
                         fails.append({"case": c01.describe(cases[i], n), "coq_case": cases[i].coq(), "program": c01.batch_source([("t0", cases[i])]),
                                       "accepted_by": "real checker", "stage": "rustc",
@@ -322,9 +351,9 @@ def run(chk):
                 # witnesses: the build must fail, with an error inside each witness function
                 if ok:
                     continue
-                bad = fn_of_error_lines(msg, os.path.join(d, "out_" + stem, "src", "main.rs"))
+                bad = owners(fn_of_error_lines(msg, os.path.join(d, "out_" + stem, "src", "main.rs")))
                 for n, i in members:
-                    if n in bad or (len(members) == 1):
+                    if int(n[1:]) in bad or (len(members) == 1):
                         reproduced.add(wnames[i])
     finally:
         shutil.rmtree(d, ignore_errors=True)
